@@ -43,8 +43,12 @@ type obsv struct {
 var reAddr = regexp.MustCompile(`0x[0-9a-f]{6,}`)
 
 func observe(src string) obsv {
-	r := runner.Run(src, runner.Opts{Fuel: 3_000_000})
+	r := runner.Run(src, runner.Opts{Fuel: 3_000_000, CaptureStdout: true})
 	o := obsv{Out: r.Out, Kind: r.Kind, Class: r.Class, Msg: r.Msg, Exit: r.ExitCode}
+	if r.Stdout != "" {
+		// what var_dump & co. print bypasses the output writer; it is part of the program's output
+		o.Out += "\n--stdout--\n" + r.Stdout
+	}
 	if r.Kind == "panic" {
 		o.Msg = r.PanicKey
 	}
